@@ -35,13 +35,31 @@ class Val:
     def __hash__(self):
         return hash((self.k, repr(self.v), repr(self.extra)))
 
+    def target(self):
+        """the referent: live (the owner's current value) for a `&mut` place reference, else the value captured at borrow time"""
+        e = self.extra
+        if isinstance(e, tuple) and len(e) > 2 and e[0] == "place":
+            fr = _FRAMES.get(e[2])
+            if fr is not None and e[1] in fr:
+                return fr[e[1]]
+        return self.v
+
     def deref(self):
         x = self
-        while x.k == "ref":
-            x = x.v
+        n = 0
+        while x.k == "ref" and n < 64:
+            x = x.target()
+            n += 1
         return x
 
 
+class Fallback(Val):
+    """a call model's generic answer (`every fallible call succeeds`): used only when no built-in model knows the callee"""
+    __slots__ = ()
+
+
+_FRAMES = {}
+_FRAME_SEQ = [0]
 UNKNOWN = Val("unknown")
 UNIT = Val("unit")
 NONE_V = Val("variant", "None", "core::option::Option")
@@ -371,7 +389,7 @@ class Interp:
         for e in p["p"]:
             if e == "*":
                 if v.k == "ref":
-                    v = v.v
+                    v = v.target()
                 # deref of a non-ref known value (Box/&): keep value
                 continue
             if isinstance(e, dict):
@@ -403,6 +421,11 @@ class Interp:
 
     def write_place(self, env, p, val):
         if not p["p"]:
+            env[p["l"]] = val
+            return
+        # `vec![..]`: the array is written into a fresh Box<MaybeUninit<[T; N]>> through its transparent wrappers
+        wrappers = ("core::mem::maybe_uninit::MaybeUninit", "core::mem::manually_drop::ManuallyDrop", "core::mem::maybe_dangling::MaybeDangling")
+        if p["p"] and all(e == "*" or (isinstance(e, dict) and e.get("adt") in wrappers) for e in p["p"]) and any(isinstance(e, dict) for e in p["p"]):
             env[p["l"]] = val
             return
         # field write into a known aggregate: `_x.0 = v`
@@ -437,10 +460,17 @@ class Interp:
 
     # ---------------------------------------------------------------- calls
     def model_call(self, cs, args):
+        fb = None
         if self.call_model is not None:
             r = self.call_model(cs, args)
-            if r is not None:
+            if isinstance(r, Fallback):
+                fb = Val(r.k, r.v, r.extra)
+            elif r is not None:
                 return r
+        r = self.builtin_models(cs, args)
+        return r if r is not None else fb
+
+    def builtin_models(self, cs, args):
         fn = cs.fn or ""
         d = [a.deref() for a in args]
         if fn in ("core::cmp::PartialEq::eq", "core::cmp::PartialEq::ne") and len(d) == 2:
@@ -471,6 +501,12 @@ class Interp:
                 return Val("adt", list(payload) or [UNIT], ("core::ops::control_flow::ControlFlow", "Continue"))
             if nm in ("Err", "None"):
                 return Val("adt", [Val("adt", list(payload), d[0].extra)] if d[0].k == "adt" else [d[0]], ("core::ops::control_flow::ControlFlow", "Break"))
+        if fn == "core::ops::try_trait::FromResidual::from_residual" and d and d[0].k in ("adt", "variant"):
+            nm = d[0].extra[1] if d[0].k == "adt" else d[0].v
+            if nm == "Err" and d[0].k == "adt":
+                return Val("adt", list(d[0].v), ("core::result::Result", "Err"))
+            if nm == "None":
+                return NONE_V
         if fn in ("core::ops::function::FnOnce::call_once", "core::ops::function::Fn::call", "core::ops::function::FnMut::call_mut") and args:
             # calling a closure / fn value: the argument tuple is spread over the callee's parameters
             f0 = args[0].deref()
@@ -545,6 +581,8 @@ class Interp:
             return vstr(out)
         if fn == "core::hint::must_use" and args:
             return args[0]
+        if fn in ("alloc::boxed::box_assume_init_into_vec_unsafe", "alloc::slice::<impl [T]>::into_vec") and d and d[0].k == "list":
+            return d[0]
         if fn in ("alloc::string::String::new", "alloc::string::String::with_capacity"):
             return vstr("")
         if fn in ("std::collections::hash::map::HashMap::new", "std::collections::hash::map::HashMap::with_capacity", "alloc::collections::btree::map::BTreeMap::new"):
@@ -611,10 +649,13 @@ class Interp:
         if not args or args[0].k != "ref" or not (isinstance(args[0].extra, tuple) and args[0].extra and args[0].extra[0] == "place"):
             return None
         fn = cs.fn or ""
+        # the place may live in a caller's frame (a `&mut Vec` handed down through followed calls)
         tgt = args[0].extra[1]
+        env = _FRAMES.get(args[0].extra[2], env) if len(args[0].extra) > 2 else env
         cur = env.get(tgt, UNKNOWN)
         while cur.k == "ref" and isinstance(cur.extra, tuple) and cur.extra and cur.extra[0] == "place":
             tgt = cur.extra[1]
+            env = _FRAMES.get(cur.extra[2], env) if len(cur.extra) > 2 else env
             cur = env.get(tgt, UNKNOWN)
         if fn == "core::iter::traits::iterator::Iterator::next" and cur.k == "iter":
             if cur.v:
@@ -830,7 +871,7 @@ class Interp:
         if cb is not None and key and f is not None and f.k == "fn" and self.call_model is not None:
             fake = _FnValueCall(cs, key)
             r = self.call_model(fake, list(cargs))
-            if r is not None:
+            if r is not None and not isinstance(r, Fallback):
                 if self._res is not None:
                     self._res.calls.append((fake, list(cargs), r))
                 return r
@@ -848,6 +889,7 @@ class Interp:
             return UNKNOWN
         sub = Interp(cb, self.call_model, self.max_steps)
         sub.depth = self.depth + 1
+        sub.follow = self.follow
         if cb.kind == "Closure":
             init = {1: f if f is not None else UNKNOWN}
             for i, a in enumerate(cargs):
@@ -939,6 +981,12 @@ class Interp:
     def run(self, init, start_bb=0):
         body = self.body
         env = dict(init)
+        _FRAME_SEQ[0] += 1
+        self.fid = _FRAME_SEQ[0]
+        _FRAMES[self.fid] = env
+        if len(_FRAMES) > 4000:
+            for k_ in sorted(_FRAMES)[:2000]:
+                _FRAMES.pop(k_, None)
         res = Result()
         self._res = res
         bb = start_bb
@@ -1044,7 +1092,7 @@ class Interp:
             return self.operand(env, rv["op"])
         if k == "ref":
             if rv.get("bk") == "mut" and not [e for e in rv["place"]["p"] if e != "*"]:
-                return Val("ref", self.read_place(env, rv["place"]), ("place", rv["place"]["l"]))
+                return Val("ref", self.read_place(env, rv["place"]), ("place", rv["place"]["l"], getattr(self, "fid", 0)))
             return Val("ref", self.read_place(env, rv["place"]))
         if k == "discr":
             v = self.read_place(env, rv["place"]).deref()
@@ -1168,8 +1216,10 @@ def success_model(body, overrides=None, skip_unknown_loops=False):
         if skip_unknown_loops and cs.fn == "core::iter::traits::iterator::Iterator::next" and args and args[0].deref().k != "iter":
             # a loop over a collection whose content is not modelled (e.g. copying an environment map): stepped over
             return NONE_V
+        if cs.fn == "core::ops::try_trait::FromResidual::from_residual":
+            return None                                     # an error that IS reached is propagated as the error it is
         if cs.dest is not None and _dest_is(cs.body, cs, "core::result::Result<"):
-            return Val("adt", [Val("unknown", "ret:%s" % cs.name)], ("core::result::Result", "Ok"))
+            return Fallback("adt", [Val("unknown", "ret:%s" % cs.name)], ("core::result::Result", "Ok"))
         return None
     return model
 
